@@ -149,7 +149,8 @@ def main():
                 m = re.match(r"internal/([a-z0-9]+)", s["file"])
                 if m and os.path.isdir(os.path.join(wt, m.group(1))):
                     pk.append("./" + m.group(1) + "/...")
-                rc, out = sh(["go", "test", "-count=1", "-timeout", "300s"] + pk, cwd=wt, timeout=400)
+                # (x509sha1=1: three pkcs7 tests of the baseline fail without it on this toolchain)
+                rc, out = sh(["go", "test", "-count=1", "-timeout", "300s"] + pk, cwd=wt, timeout=400, env=dict(ENV, GODEBUG="x509sha1=1"))
                 if rc != 0:
                     res["result"] = "suite"
                     if not a.keep_suite_killed:
